@@ -1295,6 +1295,9 @@ fn check_doc_case(c: &DocCase) -> Result<Option<String>, String> {
     for (i, (e, exps, code)) in c.tests.iter().enumerate() {
         let mut config = if c.script_mode { TestCaseConfig::default_cram() } else { TestCaseConfig::default_markdown() };
         config.environment.insert("HOME".into(), "/nonexistent-home".into());
+        // (a value no quoting rule gets right by accident: in single-script mode the environment
+        // travels as text in the script)
+        config.environment.insert("VS_AWKWARD".into(), "it's a \"value\" with $HOME, `id`, a \\ and\ttabs".into());
         for (k, v) in &c.env {
             config.environment.insert(k.clone(), v.clone());
         }
